@@ -342,8 +342,14 @@ func genRec(r *Rng, tag int, o RecOpts) *Rec {
 		genContainers(r, x)
 	}
 	x.Tr = pick(r, domTr)
+	if r.P(0.2) {
+		x.Chk |= 8
+	}
+	if r.P(0.2) {
+		x.Chk |= 16
+	}
 	if !o.ValidOnly {
-		x.Chk = r.Intn(8)
+		x.Chk |= r.Intn(8)
 		if r.P(o.InvalidP) {
 			x.Bad = 1 + r.Intn(3)
 		}
@@ -400,7 +406,9 @@ func mutateRec(r *Rng, x *Rec, o RecOpts) {
 			x.U, x.U16, x.U32 = pick(r, domU), pick(r, domU16), pick(r, domU32)
 		case 20:
 			if !o.ValidOnly {
-				x.Chk = r.Intn(8)
+				x.Chk = x.Chk&24 | r.Intn(8)
+			} else {
+				x.Chk ^= pick(r, []int{8, 16})
 			}
 		case 21:
 			if !o.ValidOnly && r.P(o.InvalidP) {
